@@ -66,30 +66,47 @@ func regStd() {
 	})
 
 	// ---- errors -------------------------------------------------------------
-	newErr := func(ex *Executor, st *State, c *callCtx) []callResult {
-		e := ex.freshErr(st, "new")
+	// Error values are structured terms so that what a message was built
+	// from stays visible to the information-flow rule (C17): err_new(msg, id)
+	// and err_wrap(inner, msg).
+	mkNew := func(ex *Executor, st *State, msg *Term) *Term {
+		ex.fresh++
+		e := App("err_new", SInt, msg, IntLit(int64(ex.fresh)))
 		st.Fact(nonNil(e))
-		return one(st, e)
+		st.Fact(App("fresh_error", SBool, e))
+		return e
 	}
-	for _, n := range []string{"errors.New", "fmt.Errorf", "github.com/friendsofgo/errors.New", "github.com/friendsofgo/errors.Errorf"} {
-		regEnv(n, n+": a fresh non-nil error distinct from the package sentinels", func(ex *Executor, st *State, c *callCtx) []callResult {
-			rs := newErr(ex, st, c)
-			e := rs[0].Ret.(*Term)
-			st.Fact(App("fresh_error", SBool, e))
-			return rs
-		})
-	}
-	wrap := func(ex *Executor, st *State, c *callCtx) []callResult {
-		in := ex.asTerm(st, c.Args[0])
-		e := ex.freshErr(st, "wrap")
+	regEnv("errors.New", "errors.New(msg): a fresh non-nil error distinct from the package sentinels", func(ex *Executor, st *State, c *callCtx) []callResult {
+		return one(st, mkNew(ex, st, ex.asTerm(st, c.Args[0])))
+	})
+	regEnv("github.com/friendsofgo/errors.New", "errors.New(msg): a fresh non-nil error distinct from the package sentinels", func(ex *Executor, st *State, c *callCtx) []callResult {
+		return one(st, mkNew(ex, st, ex.asTerm(st, c.Args[0])))
+	})
+	regEnv("fmt.Errorf", "fmt.Errorf(format, args...): a fresh non-nil error carrying the formatted message", func(ex *Executor, st *State, c *callCtx) []callResult {
+		return one(st, mkNew(ex, st, ex.sprintf(st, c.Args[0], c.Args[1])))
+	})
+	regEnv("github.com/friendsofgo/errors.Errorf", "errors.Errorf(format, args...): a fresh non-nil error carrying the formatted message", func(ex *Executor, st *State, c *callCtx) []callResult {
+		return one(st, mkNew(ex, st, ex.sprintf(st, c.Args[0], c.Args[1])))
+	})
+	mkWrap := func(ex *Executor, st *State, in, msg *Term) *Term {
+		e := App("err_wrap", SInt, in, msg)
 		st.Fact(Eq(isNilT(e), isNilT(in)))
 		st.Fact(Implies(nonNil(e), App("fresh_error", SBool, e)))
-		return one(st, e)
+		return e
 	}
-	for _, n := range []string{"github.com/friendsofgo/errors.Wrap", "github.com/friendsofgo/errors.Wrapf", "github.com/friendsofgo/errors.WithStack", "github.com/friendsofgo/errors.WithMessage"} {
-		regEnv(n, n+"(err,..): nil iff err is nil; a wrapped error is not identical to any sentinel", wrap)
-	}
-	regEnv("(error).Error", "err.Error(): some string", func(ex *Executor, st *State, c *callCtx) []callResult {
+	regEnv("github.com/friendsofgo/errors.Wrap", "errors.Wrap(err,msg): nil iff err is nil; a wrapped error is not identical to any sentinel and carries msg", func(ex *Executor, st *State, c *callCtx) []callResult {
+		return one(st, mkWrap(ex, st, ex.asTerm(st, c.Args[0]), ex.asTerm(st, c.Args[1])))
+	})
+	regEnv("github.com/friendsofgo/errors.WithMessage", "errors.WithMessage(err,msg): like Wrap", func(ex *Executor, st *State, c *callCtx) []callResult {
+		return one(st, mkWrap(ex, st, ex.asTerm(st, c.Args[0]), ex.asTerm(st, c.Args[1])))
+	})
+	regEnv("github.com/friendsofgo/errors.Wrapf", "errors.Wrapf(err,format,args...): nil iff err is nil; carries the formatted message", func(ex *Executor, st *State, c *callCtx) []callResult {
+		return one(st, mkWrap(ex, st, ex.asTerm(st, c.Args[0]), ex.sprintf(st, c.Args[1], c.Args[2])))
+	})
+	regEnv("github.com/friendsofgo/errors.WithStack", "errors.WithStack(err): nil iff err is nil", func(ex *Executor, st *State, c *callCtx) []callResult {
+		return one(st, mkWrap(ex, st, ex.asTerm(st, c.Args[0]), StrLit("")))
+	})
+	regEnv("(error).Error", "err.Error(): the error's text (function of the error term)", func(ex *Executor, st *State, c *callCtx) []callResult {
 		return one(st, App("errtext", SStr, ex.asTerm(st, c.Recv)))
 	})
 
